@@ -203,8 +203,22 @@ def grep_forbidden(files):
     return hits
 
 
+_DRIVER_COPY = {}
+
+
 def driver_exe(area):
-    return os.path.join(LEAN, ".lake", "build", "bin", "pdmodel-" + area)
+    return _DRIVER_COPY.get(area) or os.path.join(LEAN, ".lake", "build", "bin", "pdmodel-" + area)
+
+
+def snapshot_driver(area, workdir):
+    """copy the driver executable (call this while holding the obligations lock, right after the build): a
+    concurrent check's `lake build` re-links the executable in place, and a run must not see it half-written"""
+    src = os.path.join(LEAN, ".lake", "build", "bin", "pdmodel-" + area)
+    if os.path.exists(src):
+        os.makedirs(workdir, exist_ok=True)
+        dst = os.path.join(workdir, "pdmodel-" + area)
+        shutil.copy2(src, dst)
+        _DRIVER_COPY[area] = dst
 
 
 def exe_targets():
